@@ -163,7 +163,27 @@ func plant(t *rapid.T, set *ymodel.Set) string {
 	addDev := func(path string, dv ...*ymodel.Deviate) {
 		d.Deviations = append(d.Deviations, &ymodel.Deviation{Path: path, Deviates: dv})
 	}
-	switch rapid.SampledFrom([]string{"missing-target", "add-default-exists", "delete-default-absent", "delete-default-different", "delete-bound-different", "bounds-on-non-list", "unresolvable-type", "unknown-kind"}).Draw(t, "fault") {
+	switch rapid.SampledFrom([]string{"target-removed-earlier", "missing-target", "add-default-exists", "delete-default-absent", "delete-default-different", "delete-bound-different", "bounds-on-non-list", "unresolvable-type", "unknown-kind"}).Draw(t, "fault") {
+	case "target-removed-earlier":
+		// two deviation statements with the same path: the first removes the node, the second finds none
+		untouched := func(x schema.Target) bool {
+			if x.Node.Kind != ymodel.KLeaf && x.Node.Kind != ymodel.KLeafList || x.InOp {
+				return false
+			}
+			for _, m := range set.Modules {
+				for _, dv := range m.Deviations {
+					if dv.Path == x.Path || strings.HasPrefix(x.Path, dv.Path+"/") || strings.HasPrefix(dv.Path, x.Path+"/") {
+						return false
+					}
+				}
+			}
+			return true
+		}
+		if tg := pick(untouched, "removed-then-deviated"); tg != nil {
+			addDev(tg.Path, &ymodel.Deviate{Kind: "not-supported"})
+			addDev(tg.Path, &ymodel.Deviate{Kind: rapid.SampledFrom([]string{"add", "replace"}).Draw(t, "second-deviate"), Units: "late"})
+			return "target-removed-earlier"
+		}
 	case "missing-target":
 		if tg := pick(func(schema.Target) bool { return true }, "near"); tg != nil {
 			addDev(tg.Path+"/dv:nosuch", &ymodel.Deviate{Kind: "not-supported"})
@@ -230,7 +250,7 @@ func gen(t *rapid.T) Case {
 	schema.AddAugments(t, set, 0, 2)
 	c := Case{Set: set, Repeats: 6}
 	c.Ignore = rapid.IntRange(0, 3).Draw(t, "ignore-not-supported") == 0
-	schema.AddDeviations(t, set, schema.DevOpts{Modules: rapid.IntRange(1, 2).Draw(t, "deviating-modules"), Max: 5, NotSupported: true, Operations: true})
+	schema.AddDeviations(t, set, schema.DevOpts{Modules: rapid.IntRange(1, 2).Draw(t, "deviating-modules"), Max: 5, NotSupported: true, Operations: true, OlderEmpty: true})
 	if rapid.IntRange(0, 3).Draw(t, "plant") == 0 {
 		c.Fault = plant(t, set)
 	}
